@@ -684,3 +684,42 @@ func VerifH_C04_Leafref() {
 	}
 	vrt.Assert((err == nil) == ok, "c04.leafref-verdict")
 }
+
+// VerifH_C04_Separators: what may separate tokens.  XPath 1.0 §3.7 ExprWhitespace is
+// exactly SP, TAB, LF, CR; any other control character (VT, FF, NUL, DEL ...) between
+// tokens is a stray character and the expression must be rejected.
+func VerifH_C04_Separators() {
+	exprs := [][]string{
+		{"1", "+", "2"}, {"a", "and", "b"}, {"not", "(", "a", ")"}, {"count", "(", "*", ")", ">", "0"},
+		{"a", "[", "k", "=", "'v'", "]", "/", "b"}, {"..", "/", "a", "=", "current", "(", ")", "/", "b"},
+	}
+	toks := exprs[vrt.Choice("expr", len(exprs))]
+	gap := vrt.Choice("gap", len(toks)+1) // 0 = before the first token, len = after the last
+	w := vrt.Byte("w")
+	vrt.Assume(vrt.Or(w <= 0x20, w == 0x7f))
+	mode := vrt.Choice("mode", 3) // the byte alone, after a blank, before a blank
+	sep := string([]byte{w})
+	switch mode {
+	case 1:
+		sep = " " + sep
+	case 2:
+		sep = sep + " "
+	}
+	text := ""
+	for i, t := range toks {
+		if i == gap {
+			text += sep
+		} else if i > 0 {
+			text += " "
+		}
+		text += t
+	}
+	if gap == len(toks) {
+		text += sep
+	}
+	white := vrt.Or(w == ' ', vrt.Or(w == '\t', vrt.Or(w == '\n', w == '\r')))
+	vrt.Reach("c04.separators")
+	_, err := NewExprMachine(text, c02MapFn)
+	vrt.Observe("verdict", text, err == nil)
+	vrt.Assert(vrt.Iff(err == nil, white), "c04.only-xpath-whitespace-separates-tokens")
+}
